@@ -9,6 +9,7 @@ CONSTANTS
   CtxMayExpire = TRUE
   ClientMayClose = TRUE
   HandlerMayClose = TRUE
+  StartMayFail = FALSE
   SeqRestart = FALSE
   Bug = "none"
   TrackAct = TRUE
